@@ -205,12 +205,13 @@ func Generate(seed uint64, n int, tier, corpusDir string, shard int, out *kit.Ou
 	}
 	rng := kit.NewRng(seed).Fork() // consecutive seeds give shifted streams of the base generator
 	budget := n
+	deactVariant := false // application variant: one sync projector, AFTER DEACTIVATE only
 	run := func(tl int, steps []stepSpec, note string) error {
 		if budget <= 0 {
 			return nil
 		}
 		budget--
-		return runScenario(scenario{TL: tl, Steps: append(append([]stepSpec{}, steps...), finalStep()), Note: note}, out)
+		return runScenario(scenario{TL: tl, Deact: deactVariant, Steps: append(append([]stepSpec{}, steps...), finalStep()), Note: note}, out)
 	}
 	type fk = struct {
 		s    slot
@@ -324,8 +325,42 @@ func Generate(seed uint64, n int, tier, corpusDir string, shard int, out *kit.Ou
 		}
 	}
 random:
+	if tier != "thorough" || shard%4 == 0 {
+		// the variant with the AFTER DEACTIVATE projector: every single fault on the commands of a
+		// history with deactivations, and a restart before them
+		deactVariant = true
+		f := firstUser
+		hd := []stepSpec{
+			{Kind: "cmd", WS: 1, Ops: []opSpec{{Op: "ins", Raw: 1, V: 5}, {Op: "ins", Raw: 2, V: 6}}},
+			{Kind: "cmd", WS: 1, Ops: []opSpec{{Op: "deact", ID: f}, {Op: "upd", ID: f + 1, V: 7}}},
+			{Kind: "cmd", WS: 2, Ops: []opSpec{{Op: "ins", Raw: 1, V: 8}}},
+			{Kind: "cmd", WS: 1, Ops: []opSpec{{Op: "upd", ID: f, V: 9}, {Op: "deact", ID: f + 1}}},
+		}
+		if err := run(0, hd, "no fault"); err != nil {
+			return err
+		}
+		for _, ci := range []int{1, 3} {
+			for _, sl := range []slot{{ci, tPLog, 1}, {ci, tRecords, 1}, {ci, tRecords, 2}, {ci, tView, 1}, {ci, tWLog, 1}} {
+				for kind := 0; kind < 3; kind++ {
+					if err := run(ci/2, withFaults(hd, fk{sl, kind}), "single fault"); err != nil {
+						return err
+					}
+				}
+			}
+		}
+		hr := append(append(append([]stepSpec{}, hd[:2]...), stepSpec{Kind: "restart"}), hd[2:]...)
+		for _, sl := range []slot{{3, tRecords, 1}, {3, tView, 1}, {3, tWLog, 1}, {4, tView, 1}, {4, tView, 2}} {
+			for _, kind := range []int{fBefore, fAfter} {
+				if err := run(0, withFaults(hr, fk{sl, kind}), "restart, then fault"); err != nil {
+					return err
+				}
+			}
+		}
+		deactVariant = false
+	}
 	for budget > 0 {
 		r := rng.Fork()
+		deactVariant = r.Chance(1, 6)
 		tl := kit.Pick(r, []int{0, 0, 0, 1, 2})
 		if err := run(tl, randomPlan(r, randomHistory(r)), "random"); err != nil {
 			return err
